@@ -10,7 +10,13 @@ Two parts, both run against the working tree of the repository on every run:
     * kind "recenter": `Module.recenter_rectangles` on generated multi-rectangle hard modules;
     * kind "fixrule": `optimize_allocation` is run up to (not including) the solver call and the table
       `model.a` (which entries are Python floats, with which value, which are GEKKO variables) must equal
-      `model_a` / `get_a` / `neighbours` / `problem_modules` of the model.
+      `model_a` / `get_a` / `neighbours` / `problem_modules` of the model;
+    * kind "system" (harness/props/c10_sys.py): `optimize_allocation` is run up to the solver call and the WHOLE
+      constraint system it handed to GEKKO (variables with bounds, every (in)equation; captured from the GEKKO
+      object, g.sum objects substituted away, variables identified through model.a / model.x / model.y / model.d,
+      never through their names) must equal `gen_system` of coq/Glb/System.v, equation by equation as canonical
+      polynomials; the direct oracle checks on the captured system that every cell's occupancy is bounded by an
+      inequality and, where it is not, asks the real solver for a concrete over-occupied answer.
 (b) runtime exploration, kind "run": real `glbfloor(...)` runs (GEKKO's local solver) on small generated
     instances.  Every call of `optimize_allocation` / `extract_solution` inside the run is recorded and
     replayed through the model (the recorded solver values are the model's `sol`), the solver contract
@@ -49,8 +55,27 @@ ASSUMPTIONS = [
     "on overlap areas); ratios must be in [0,1] exactly (the Allocation constructor enforces it)",
     "exact stream: dyadic coordinates and solver values, thresholds whose 1 - t is exact in binary64; rectangles of movable "
     "hard modules are compared exactly when the module area is a power of two and within 16 roundings otherwise",
-    "names f'{m}_{r}' of the fake one-rectangle modules are modelled literally (decimal index), so a netlist in which a "
-    "hard module A and another module A_0 coexist is modelled as the code behaves; such netlists are not generated for runs",
+    "names f'{m}_{r}' of the fake one-rectangle modules are modelled literally (decimal index); the model mirrors the code "
+    "REPAIRED by fixes/C10-fake-name-clash.diff (a netlist module bearing such a name: AssertionError = gen_system None); on "
+    "the unrepaired tree such netlists are generated (about 1 in 12 system cases, 1 in 16 runs) and reported as the open "
+    "known finding C10/fake-name-clash",
+    "the constraint system: C10_system_feasible_solok / C10_glb_from_system replace the hypothesis SolOK by 'the solver "
+    "returned a point feasible for the system it was given' (bounds exactly, every (in)equation within tol; SolOK then holds "
+    "with tolerance tol * (1 + number of movable hard modules)); that IPOPT's answer is feasible within tol is still not "
+    "proved - it is monitored (solok_*). The objective (g.Minimize) is not part of the model; area ** (3/2) is an "
+    "uninterpreted function (the floats the code computed are handed to the model by the harness); terminals and "
+    "dispersion functions other than the default x^2 + y^2 are not modelled",
+    "system comparison: coefficients within 256 roundings (2^-53 each) at the magnitude of the equation (the code multiplies "
+    "and divides Python floats before GEKKO sees them; exact for dyadic inputs); equations compared as a multiset of "
+    "canonical polynomials (order of equations / terms, position of constants, a == b vs b == a do not matter); the "
+    "initial values of the variables (value=) are not compared (no clause of the property depends on them)",
+    "the probe: when (and only when) the captured system leaves the occupancy of a cell unbounded the real solver is run "
+    "on the GEKKO model the code built - first with the code's objective, then with the objective replaced by 'maximise "
+    "the occupancy of that cell' (variables, bounds and equations untouched) - and the property is checked on what the real "
+    "extract_solution returns; such a failure is keyed .../probe/... and says so in its text. On a tree whose system bounds "
+    "every cell the probe never runs",
+    "module names that differ only in letter case make GEKKO refuse the model ('Duplicate Names': it lower-cases variable "
+    "names) - nothing is returned; such netlists are not generated",
 ]
 
 
@@ -602,7 +627,8 @@ def run_run(case, probe=None):
             return {"status": "invalid-input", "err": str(e)[:200], "iters": []}
         mods0 = [module_obs(m) for m in nl.modules]
         try:
-            d2, alloc = opt.glbfloor(die, float(case["t"]), float(case["alpha"]), max_iter=case["max_iter"])
+            tt, aa = (case["t"], case["alpha"]) if case.get("raw") else (float(case["t"]), float(case["alpha"]))
+            d2, alloc = opt.glbfloor(die, tt, aa, max_iter=case["max_iter"])
         except _ProbeDone:
             return {"status": "probed", "probe": probed.get("result"), "iters": iters, "mods0": mods0,
                     "die": [die.width, die.height]}
@@ -711,7 +737,7 @@ def to_coq(case, obs):
         if "cap_error" in it:
             parts.append("false")
         elif "cap" in it and "mods_before" in it:
-            p = cs.run_system_expr(it)
+            p = cs.run_system_expr(it, cs.has_clash(case))
             if p:
                 parts.append(p)
         elif it.get("build_raised") and "mods_before" in it:
@@ -918,6 +944,8 @@ def failure_key(case, why):
 
 
 def shrink(case):
+    if cs.has_clash(case):
+        return                      # the open finding C10/fake-name-clash: its minimal input is in the corpus
     if case["kind"] == "run":
         if case["max_iter"] > 1:
             yield dict(case, max_iter=1)
@@ -948,6 +976,8 @@ def shrink(case):
         for i in range(len(case["rects"])):
             if len(case["rects"]) > 1:
                 yield dict(case, rects=case["rects"][:i] + case["rects"][i + 1:])
+    elif case["kind"] == "system":
+        yield from cs.shrink_system(case)
 
 
 def dist_key(case):
@@ -982,7 +1012,14 @@ def run(ctx, out, replay=None):
                     "coincident; recenter on 0-4 rectangle modules; model.a tables on initial-like and stored allocations. "
                     "(b) real glbfloor runs: dies 4-8 x 4-6 with 0-3 blockages / fixed rectangles, 2-5 movable modules "
                     "(soft, hard, flip), nets and weighted hyperedges, alpha in {0,.3,.5,.7,1}, threshold in {.5,.8,.95}, "
-                    "max_iter 1-2, no refinement / split_refinable_regions / initial_grid. "
+                    "max_iter 1-2, no refinement / split_refinable_regions / initial_grid; module names renamed with "
+                    "prefix-related pools (H1 / H1_io / H1_x / H10 / H1_ / H1__0, names of GEKKO variables, rarely the "
+                    "internal name of a rectangle of a hard module); tie runs: area-1 soft modules centred in 2x2 / 2x1 cells "
+                    "next to a fixed strip, threshold 3/4, 1/2, 1 (ratio == 1 - threshold), alpha 1 / 0.9, parameters as ints. "
+                    "(c) system stream (no solve): fixrule-like instances, tie strips (ratios exactly t, 1-t, 0, 1, 1/4, 1/2), "
+                    "10-14 cells, hard modules with 11-12 rectangles, soft areas differing from their square, nets with 1-4 "
+                    "pins, six name pools, an earlier optimize_allocation on the same objects (other threshold) and centres "
+                    "re-assigned in place before the observed call. "
                     "non-trivial = at least two cells and two modules (three modules for runs); distinct by canonical hash")
         cases = []
         if replay and "case" in replay:
